@@ -325,8 +325,6 @@ def gen_async(count, seed, first_id=4000, fam="async", with_abort=True, with_sem
                 if rng.random() < 0.3:
                     acts.append(op("abort", v=c))
             if fate in ("join", "abort_join"):
-                if rng.random() < 0.25:
-                    acts.append(op("is_finished", v=c))
                 if rng.random() < 0.35:
                     acts.append(op("try_join", v=c))      # a now_or_never style probe first
                 if owner == 0:
